@@ -143,36 +143,44 @@ def serveOn (B : Nat) (q : ConnReq) (segs : List Bytes) (eof : Bool) :
       | (d, some []) => some (d, if rest.isEmpty && eof then none else some rest)
       | (d, _) => some (d, none)
 
-/-- Requests in sequence through the Transport.  `cur`: the idle connection, if any (its
-remaining segments and `eof` flag).  A reused connection that yields no byte because the peer
-closed it is replaced by a fresh dial and the (replayable) request is sent again; on a fresh
-connection, and when the peer just stays silent, the request fails.  Result: the deliveries
-and the number of connections dialled. -/
-def transportRun (B : Nat) : List ConnReq → Option (List Bytes × Bool) → List ConnScript →
-    List Delivery × Nat
-  | [], _, _ => ([], 0)
-  | q :: qs, cur, scripts =>
-    let fresh : Unit → List Delivery × Nat := fun _ =>
-      match scripts with
-      | [] => let (ds, n) := transportRun B qs none []
-              (.fail :: ds, n)
-      | sc :: scs =>
-        match serveOn B q sc.segs sc.eof with
-        | none => let (ds, n) := transportRun B qs none scs
-                  (.fail :: ds, n + 1)
-        | some (d, next) =>
-          let (ds, n) := transportRun B qs (next.map fun r => (r, sc.eof)) scs
-          (d :: ds, n + 1)
-    match cur with
-    | none => fresh ()
-    | some (segs, eof) =>
-      match serveOn B q segs eof with
-      | some (d, next) =>
-        let (ds, n) := transportRun B qs (next.map fun r => (r, eof)) scripts
-        (d :: ds, n)
-      | none =>
-        if eof then fresh ()                       -- dead idle connection: retry on a new one
-        else let (ds, n) := transportRun B qs none scripts
-             (.fail :: ds, n)                      -- silent peer: the caller's timeout
+/-- The Transport between two requests: the idle connection, if any (its remaining segments
+and `eof` flag), the scripted connections not yet dialled, the number of dials so far. -/
+structure TState where
+  cur : Option (List Bytes × Bool)
+  scripts : List ConnScript
+  dials : Nat
+deriving Repr, BEq, DecidableEq
+
+/-- Dial the next scripted connection and send `q` on it.  On a fresh connection there is no
+retry: if not a single byte arrives the request fails. -/
+def dialAndServe (B : Nat) (q : ConnReq) (st : TState) : Delivery × TState :=
+  match st.scripts with
+  | [] => (.fail, { st with cur := none })
+  | sc :: scs =>
+    match serveOn B q sc.segs sc.eof with
+    | none => (.fail, ⟨none, scs, st.dials + 1⟩)
+    | some (d, next) => (d, ⟨next.map fun r => (r, sc.eof), scs, st.dials + 1⟩)
+
+/-- One request through the Transport: an idle connection is reused; a reused connection that
+yields no byte because the peer closed it is replaced by a fresh dial and the (replayable)
+request is sent again (`shouldRetryRequest`); when the peer just stays silent the request
+fails (the caller's timeout). -/
+def transportStep (B : Nat) (q : ConnReq) (st : TState) : Delivery × TState :=
+  match st.cur with
+  | none => dialAndServe B q st
+  | some (segs, eof) =>
+    match serveOn B q segs eof with
+    | some (d, next) => (d, { st with cur := next.map fun r => (r, eof) })
+    | none =>
+      if eof then dialAndServe B q { st with cur := none }
+      else (.fail, { st with cur := none })
+
+/-- Requests in sequence through the Transport: the deliveries and the number of dials. -/
+def transportRun (B : Nat) : List ConnReq → TState → List Delivery × Nat
+  | [], st => ([], st.dials)
+  | q :: qs, st =>
+    let r := transportStep B q st
+    let rest := transportRun B qs r.2
+    (r.1 :: rest.1, rest.2)
 
 end Req.H1
